@@ -35,6 +35,7 @@ type Op struct {
 // Case is a generated history plus schedule.
 type Case struct {
 	Mod   int    `json:"mod"` // custom equality: equal mod Mod (0 = none)
+	NoZ   bool   `json:"noz,omitempty"` // the custom comparator never calls a zero operand equal to anything (not even to zero)
 	Init  int    `json:"init"`
 	Ops   []Op   `json:"ops"`
 	Sched []byte `json:"sched"`
@@ -67,12 +68,14 @@ func genCase(t *rapid.T) Case {
 		}
 		return op
 	})
-	return Case{
+	cs := Case{
 		Mod:   rapid.SampledFrom([]int{0, 0, 4}).Draw(t, "mod"),
 		Init:  rapid.SampledFrom([]int{0, 0, 1, 4}).Draw(t, "init"),
 		Ops:   rapid.SliceOfN(genOp, 2, ev.Pick(16, 40)).Draw(t, "ops"),
 		Sched: sched.GenSchedule(t, ev.Pick(120, 400)),
 	}
+	cs.NoZ = cs.Mod != 0 && rapid.Bool().Draw(t, "noz")
+	return cs
 }
 
 type waiter struct {
@@ -96,8 +99,9 @@ func run(t *testing.T, cs Case) *ev.Verdict {
 	v := &ev.Verdict{}
 	canon, _ := json.Marshal(struct {
 		Mod, Init int
+		NoZ       bool
 		Ops       []Op
-	}{cs.Mod, cs.Init, cs.Ops})
+	}{cs.Mod, cs.Init, cs.NoZ, cs.Ops})
 	v.Canon = string(canon)
 	c, berr := sched.Run(t, []string{"broadcast.lock", "broadcast.unlocked"}, cs.Sched, func(c *sched.Ctl) { body(c, cs, v) })
 	v.Trace = c.Trace()
@@ -121,11 +125,21 @@ func body(c *sched.Ctl, cs Case, v *ev.Verdict) {
 		if a == b {
 			return true
 		}
+		if cs.NoZ && (a == 0 || b == 0) {
+			return false
+		}
 		return cs.Mod != 0 && a%cs.Mod == b%cs.Mod
 	}
 	var ctr *ccontainer.CContainer[int]
 	if cs.Mod != 0 {
-		ctr = ccontainer.NewCContainerWithEqual(cs.Init, func(a, b int) bool { return a%cs.Mod == b%cs.Mod })
+		ctr = ccontainer.NewCContainerWithEqual(cs.Init, func(a, b int) bool {
+			if cs.NoZ && (a == 0 || b == 0) {
+				// e.g. a comparator over pointers that starts with "a != nil && b != nil &&":
+				// identical values are equal anyway (the container checks identity first)
+				return false
+			}
+			return a%cs.Mod == b%cs.Mod
+		})
 	} else {
 		ctr = ccontainer.NewCContainer(cs.Init)
 	}
@@ -454,7 +468,7 @@ func body(c *sched.Ctl, cs Case, v *ev.Verdict) {
 func TestC15(t *testing.T) {
 	ev.Drive(t, ev.Runner[Case]{
 		Prop: P,
-		Rule: "one CContainer[int] (plain or equal-mod-4 equality); ops SetValue, SwapValue(inc|const|nil), GetValue, waiters WaitValue/WaitValueChange/WaitValueEmpty/WaitValueWithValidator(pred, failing pred, nil) with own context and optional error channel, Cancel, send (nil or error) / close on the error channel; sequential model advanced in the order the controller grants the critical sections; non-trivial iff a write changed the cell while a waiter was parked between its sample and its blocking select; distinct by hash(ops, realised grant trace)",
+		Rule: "one CContainer[int] (plain, equal-mod-4 equality, or a mod-4 comparator that never calls a zero operand equal); ops SetValue, SwapValue(inc|const|nil), GetValue, waiters WaitValue/WaitValueChange/WaitValueEmpty/WaitValueWithValidator(pred, failing pred, nil) with own context and optional error channel, Cancel, send (nil or error) / close on the error channel; sequential model advanced in the order the controller grants the critical sections; non-trivial iff a write changed the cell while a waiter was parked between its sample and its blocking select; distinct by hash(ops, realised grant trace)",
 		Gen:  genCase,
 		Run:  run,
 	})
